@@ -183,8 +183,13 @@ func runWorldA(rc *RunCtx, prop string) *RunResult {
 	// zero-length window [anchorFrom, anchorFrom]) or 1
 	drawDelta := func(label string) uint64 {
 		d := uint64(3 + T.Draw(40, label))
-		if x := T.Draw(12, label+".edge"); x < 2 {
+		switch x := T.Draw(14, label+".edge"); {
+		case x < 2:
 			d = uint64(x)
+		case x == 2:
+			d = 1<<63 - 1 // "never expires", as an operator would write it
+		case x == 3:
+			d = 1<<64 - 1
 		}
 
 		return d
@@ -570,7 +575,7 @@ func (w *aWorld) build(p *opPlan) ([]byte, *refmodel.Op) {
 // window draws an anchoring window around the anchoring time t, biased onto every boundary.
 func (w *aWorld) window(t uint64) (int64, int64) {
 	T := w.k.T
-	d := int64(w.version().P.MaxOperationTimeDelta)
+	d := refmodel.DeltaOf(w.version().P.MaxOperationTimeDelta)
 	ti := int64(t)
 
 	switch T.Draw(4, "win.class") {
@@ -578,6 +583,10 @@ func (w *aWorld) window(t uint64) (int64, int64) {
 		return 0, 0
 	case 1: // from only: default until = from + delta
 		offs := []int64{-d - 1, -d, -d + 1, -1, 0, 1, -d / 2}
+		if d > 1<<40 {
+			// a "never expires" delta: the window cannot be left at its far end; stay near the anchoring time
+			offs = []int64{-1000, -1, 0, 1, 1, 5}
+		}
 
 		return ti + offs[T.Draw(len(offs), "win.from")], 0
 	case 2: // both
@@ -672,6 +681,7 @@ func (w *aWorld) event() {
 
 				w.unpubOp = nil
 			}
+		case w.prop == "C02" && w.unpubOp.M.Type == refmodel.Recover && T.Draw(2, "unpub.update-beside") == 0 && w.publishedUpdateBesidePending():
 		default:
 			w.competitorForUnpublished(st)
 		}
@@ -862,7 +872,7 @@ func (w *aWorld) unpublishedCreate() {
 	m.ID = w.nextID
 	w.nextID++
 	m.Time, m.Number, m.Published = w.now, 0, false
-	m.MaxDelta = int64(w.version().P.MaxOperationTimeDelta)
+	m.MaxDelta = refmodel.DeltaOf(w.version().P.MaxOperationTimeDelta)
 
 	a := &operation.AnchoredOperation{Type: operation.TypeCreate, UniqueSuffix: w.suffix, OperationRequest: req, TransactionTime: w.now,
 		ProtocolVersion: w.version().P.GenesisTime, AnchorOrigin: m.Origin}
@@ -898,7 +908,7 @@ func (w *aWorld) stampNoAdvance(m *refmodel.Op) {
 		m.Number = n
 	}
 
-	m.MaxDelta = int64(w.version().P.MaxOperationTimeDelta)
+	m.MaxDelta = refmodel.DeltaOf(w.version().P.MaxOperationTimeDelta)
 }
 
 // legitNow: does an authentic operation revealing key k of the given type reveal the commitment currently in force?
@@ -1505,6 +1515,11 @@ func (w *aWorld) addUnpublished(st *refmodel.State) {
 	p := &opPlan{typ: operation.TypeUpdate, key: w.byCommit[st.UpdateC], nextUpd: w.newKey("upd"), patches: w.genPatches(false, false), kind: "unpublished"}
 	if T.Draw(4, "unpub.rec") == 0 && w.byCommit[st.RecoveryC] != nil {
 		p.typ, p.key, p.nextRec = operation.TypeRecover, w.byCommit[st.RecoveryC], w.newKey("rec")
+
+		// the recover may keep the update key the DID has now (an update under that key may be on its way to the ledger)
+		if w.prop == "C02" && T.Draw(2, "unpub.rec.keeps-update-key") == 0 {
+			p.nextUpd = w.byCommit[st.UpdateC]
+		}
 	}
 
 	// the pending operation is stamped with the node's clock, which may lag behind the ledger's (the stamp is then earlier
@@ -1524,7 +1539,7 @@ func (w *aWorld) addUnpublished(st *refmodel.State) {
 	m.Time = stamp
 	m.Number = 0
 	m.Published = false
-	m.MaxDelta = int64(w.version().P.MaxOperationTimeDelta)
+	m.MaxDelta = refmodel.DeltaOf(w.version().P.MaxOperationTimeDelta)
 
 	a := &operation.AnchoredOperation{Type: p.typ, UniqueSuffix: w.suffix, OperationRequest: req, TransactionTime: stamp, ProtocolVersion: w.version().P.GenesisTime}
 	if m.Origin != "" {
@@ -1567,6 +1582,39 @@ func (w *aWorld) publishUnpublished() {
 	m.Label += "/now-published"
 	w.stampNoAdvance(&m)
 	w.anchor(u.A.OperationRequest, &m, true, "publish-unpublished")
+}
+
+// publishedUpdateBesidePending: while the controller's recover is still pending, an update under the DID's published
+// update commitment is anchored (it was submitted earlier, or comes from another holder of the key). It belongs before
+// the recover, which is anchored later by definition.
+func (w *aWorld) publishedUpdateBesidePending() bool {
+	var pub []*refmodel.Op
+
+	for _, o := range w.modelOps() {
+		if o.Published {
+			pub = append(pub, o)
+		}
+	}
+
+	st, err := refmodel.Resolve(pub)
+	if err != nil || st.Deactivated || st.UpdateC == "" || w.byCommit[st.UpdateC] == nil {
+		return false
+	}
+
+	w.advance()
+
+	p := &opPlan{typ: operation.TypeUpdate, key: w.byCommit[st.UpdateC], nextUpd: w.newKey("upd"), patches: w.genPatches(false, false), kind: "published-update-beside-pending-recover"}
+	req, m := w.build(p)
+	w.stampNoAdvance(m)
+	w.k.Count("probe:published-update-beside-pending-recover")
+
+	if w.unpubOp.M.NextUpdate == st.UpdateC {
+		w.k.Count("probe:published-update-reveals-key-kept-by-pending-recover")
+	}
+
+	w.anchor(req, m, true, p.kind)
+
+	return true
 }
 
 func (w *aWorld) competitorForUnpublished(st *refmodel.State) {
